@@ -1285,6 +1285,17 @@ def loop_shape(f, loop):
     or None if the loop is not of such a form."""
     if loop is None or loop["k"] not in ("ForStmt", "WhileStmt"):
         return None
+
+    def vid_of(n):
+        """identity of a loop variable: a local / parameter, or a member of *this"""
+        n = strip(n)
+        if n is None:
+            return None
+        if n["k"] == "DeclRefExpr":
+            return n.get("declId")
+        if n["k"] == "MemberExpr" and kids(n) and strip(kids(n)[0]) is not None and strip(kids(n)[0])["k"] == "CXXThisExpr":
+            return "this." + n.get("name", "?")
+        return None
     ks = loop.get("c", [])
     if loop["k"] == "ForStmt":
         ini, cond, inc = ks[0], ks[2], ks[3]
@@ -1302,7 +1313,7 @@ def loop_shape(f, loop):
         for n in walk(st):
             if n["k"] == "VarDecl" and n.get("declId") == vid and kids(n):
                 return kids(n)[0]
-            if n["k"] == "BinaryOperator" and n.get("op") == "=" and strip(kids(n)[0]).get("declId") == vid:
+            if n["k"] == "BinaryOperator" and n.get("op") == "=" and vid_of(kids(n)[0]) == vid:
                 return kids(n)[1]
         return None
 
@@ -1315,7 +1326,7 @@ def loop_shape(f, loop):
         idx = next((k_ for k_, x in enumerate(sibs) if x["i"] == loop["i"]), 0)
         for prev in reversed(sibs[:idx]):
             if prev["k"] in ("ForStmt", "WhileStmt", "DoStmt", "CXXForRangeStmt"):
-                if any(x["k"] == "DeclRefExpr" and x.get("declId") == vid for x in walk(prev)):
+                if any(vid_of(x) == vid for x in walk(prev) if x["k"] in ("DeclRefExpr", "MemberExpr")):
                     return None                   # continues after an earlier loop over the same variable
                 continue
             s0 = init_in(prev, vid)
@@ -1328,21 +1339,21 @@ def loop_shape(f, loop):
         dec = strip(kids(dec)[0])
     if dec["k"] == "UnaryOperator" and dec.get("op") == "--" and dec.get("postfix"):
         v = strip(kids(dec)[0])
-        if v["k"] == "DeclRefExpr":
-            vid = v.get("declId")
+        if vid_of(v) is not None:
+            vid = vid_of(v)
             other = [n for n in walk(body) if n["k"] in ("UnaryOperator", "BinaryOperator", "CompoundAssignOperator") and
-                     (n.get("op") in ("++", "--", "=") or n["k"] == "CompoundAssignOperator") and strip(kids(n)[0]).get("declId") == vid]
+                     (n.get("op") in ("++", "--", "=") or n["k"] == "CompoundAssignOperator") and vid_of(kids(n)[0]) == vid]
             return dict(var=vid, name=v.get("name"), dir="down", bound=start_of(vid), start=None, rel="--", stepped=not other and inc is None)
         return None
     if cond["k"] != "BinaryOperator" or cond.get("op") not in ("<", "!=", "<="):
         return None
     v = strip(kids(cond)[0])
-    if v["k"] != "DeclRefExpr":
+    if vid_of(v) is None:
         return None
-    vid = v.get("declId")
-    incs = [n for n in walk(loop) if (n["k"] == "UnaryOperator" and n.get("op") == "++" and strip(kids(n)[0]).get("declId") == vid) or
-            (n["k"] == "CompoundAssignOperator" and n.get("op") == "+=" and strip(kids(n)[0]).get("declId") == vid and cv(kids(n)[1]) == 1)]
-    writes = [n for n in walk(body) if n["k"] == "BinaryOperator" and n.get("op") == "=" and strip(kids(n)[0]).get("declId") == vid]
+    vid = vid_of(v)
+    incs = [n for n in walk(loop) if (n["k"] == "UnaryOperator" and n.get("op") == "++" and vid_of(kids(n)[0]) == vid) or
+            (n["k"] == "CompoundAssignOperator" and n.get("op") == "+=" and vid_of(kids(n)[0]) == vid and cv(kids(n)[1]) == 1)]
+    writes = [n for n in walk(body) if n["k"] == "BinaryOperator" and n.get("op") == "=" and vid_of(kids(n)[0]) == vid]
     nested = False
     if len(incs) == 1:
         for a in f.ancestors(incs[0]):
